@@ -238,7 +238,12 @@ Qed.
 
 (* ---------- stake pools stay non-negative (uint64 balances in the Go code) ---------- *)
 
-Definition bl_ok (b : ss_blobber) : Prop := Forall (fun p => 0 <= p) (bl_pools b).
+(* [B]: bound of a delegate pool balance; 2^64 is the uint64 type of the Go code, the slash fraction
+   of kill / shut-down needs 2^53 (binary64 represents every smaller balance exactly) *)
+Section Bound.
+Variable B : Z.
+
+Definition bl_ok (b : ss_blobber) : Prop := Forall (fun p => 0 <= p < B) (bl_pools b).
 Definition st_ok (s : ss_state) : Prop := Forall bl_ok (st_blobbers s).
 
 Lemma set_ok : forall b l, Forall bl_ok l -> bl_ok b -> Forall bl_ok (ss_set_blobber b l).
@@ -254,8 +259,8 @@ Proof.
 Qed.
 
 Lemma ss_slash_pools_le : forall pools ratio pools' m, ss_slash_pools pools ratio = Some (pools', m) ->
-  Forall (fun p => 0 <= p) pools ->
-  Forall (fun p => 0 <= p) pools' /\ ss_sum pools' = ss_sum pools - m /\ 0 <= m.
+  Forall (fun p => 0 <= p < B) pools ->
+  Forall (fun p => 0 <= p < B) pools' /\ ss_sum pools' = ss_sum pools - m /\ 0 <= m.
 Proof.
   induction pools as [|p tl IH]; cbn [ss_slash_pools]; intros ratio pools' m H Hp.
   - inversion H; subst. cbn. repeat split; auto; lia.
@@ -830,7 +835,7 @@ Corollary ss_run_solvent : forall c ts s, cf_owner c <> cf_sc c -> st_c09 s -> F
 Proof. intros c ts s Hc Hs Hwf H0. destruct (ss_run_c09 c ts s Hc Hs Hwf) as [Hb _]. unfold ss_backed in Hb. lia. Qed.
 
 (* executable forms for concrete states *)
-Definition st_okb (s : ss_state) : bool := forallb (fun b => forallb (fun p => 0 <=? p) (bl_pools b)) (st_blobbers s).
+Definition st_okb (s : ss_state) : bool := forallb (fun b => forallb (fun p => (0 <=? p) && (p <? B)) (bl_pools b)) (st_blobbers s).
 Definition rp_nonnegb (s : ss_state) : bool := forallb (fun kv => 0 <=? snd kv) (st_rpools s).
 Definition st_c09b (s : ss_state) : bool := st_c12b s && st_okb s && rp_nonnegb s.
 
@@ -839,6 +844,187 @@ Proof.
   unfold st_c09b, st_c09; intros s H. apply andb_true_iff in H. destruct H as [H H3]. apply andb_true_iff in H. destruct H as [H1 H2].
   split; [apply st_c12b_spec; exact H1|]. split.
   - unfold st_ok, bl_ok, st_okb in *. rewrite forallb_forall in H2. apply Forall_forall. intros b Hb. specialize (H2 b Hb).
-    rewrite forallb_forall in H2. apply Forall_forall. intros p Hp. apply Z.leb_le. auto.
+    rewrite forallb_forall in H2. apply Forall_forall. intros p Hp. specialize (H2 p Hp). apply andb_true_iff in H2. destruct H2 as [Ha Hb']. apply Z.leb_le in Ha. apply Z.ltb_lt in Hb'. lia.
   - unfold rp_nonneg, rp_nonnegb in *. rewrite forallb_forall in H3. apply Forall_forall. intros kv Hk. apply Z.leb_le. auto.
 Qed.
+
+
+(* ---------- update_allocation: extend, add / replace / remove a blobber ---------- *)
+
+Lemma ss_extend_terms_owed : forall c rs diff bas bls bas' bls',
+  ss_extend_terms c rs diff bas bls = Some (bas', bls') -> Forall bl_ok bls ->
+  Forall bl_ok bls' /\ map bl_owed bls' = map bl_owed bls.
+Proof.
+  induction bas as [|d tl IH]; cbn [ss_extend_terms]; intros bls bas' bls' H Hok.
+  - inversion H; subst; auto.
+  - bind_as H b Eb. guard_inv H. bind_as H b1 E1. cbv zeta in H. bind_as H b2 E2. bind_as H [ds bl2] E3. inversion H; subst. clear H.
+    pose proof (find_ok _ _ _ Hok Eb) as Hb.
+    assert (H1 : bl_owed b1 = bl_owed b /\ bl_id b1 = bl_id b /\ bl_ok b1).
+    { destruct (0 <? rs); [guard_inv E1; guard_inv E1; inversion E1; subst; auto | inversion E1; subst; auto]. }
+    destruct H1 as [Ho1 [Hi1 Hk1]].
+    assert (H2 : bl_owed b2 = bl_owed b /\ bl_id b2 = bl_id b /\ bl_ok b2).
+    { destruct (_ <? _) in E2.
+      - apply ss_add_offer_owed in E2. destruct E2 as [? [? Hk]]. repeat split; [congruence | congruence | auto].
+      - destruct (_ <? _) in E2.
+        + apply ss_reduce_offer_owed in E2. destruct E2 as [? [? Hk]]. repeat split; [congruence | congruence | auto].
+        + inversion E2; subst; auto. }
+    destruct H2 as [Ho2 [Hi2 Hk2]].
+    destruct (IH _ _ _ E3 (set_ok _ _ Hok Hk2)) as [Hok' Hm]. split; [exact Hok'|]. rewrite Hm.
+    apply owed_set_blobber_same. intros x Hx. rewrite Hi2 in Hx.
+    rewrite (ss_find_blobber_self _ _ _ Eb) in Hx. inversion Hx; subst. exact Ho2.
+Qed.
+
+Lemma ss_adjust_loop_sum : forall odrtu ndrtu bas owps w cp mtc mb bas' w' cp' mtc' mb' f,
+  ss_adjust_loop odrtu ndrtu bas owps w cp mtc mb = Some (bas', w', cp', mtc', mb', f) -> w' + cp' = w + cp.
+Proof.
+  induction bas as [|d tl IH]; cbn [ss_adjust_loop]; intros owps w cp mtc mb bas' w' cp' mtc' mb' f H.
+  - inversion H; subst; reflexivity.
+  - destruct owps as [|owp otl]; [discriminate|]. destruct (ba_used d =? 0).
+    + bind_as H [[[[[ds w1] cp1] m1] b1] f1] E. inversion H; subst. eapply IH; eauto.
+    + cbv zeta in H. guard_inv H. destruct (_ =? 0) in H.
+      * bind_as H [[[[[ds w1] cp1] m1] b1] f1] E. inversion H; subst. eapply IH; eauto.
+      * destruct (f64_ltb _ f64_zero) in H.
+        -- bind_as H [w1 cp1] Em. bind_as H v' Ev. bind_as H [[[[[ds w2] cp2] m2] b2] f2] E. inversion H; subst.
+           apply ss_move_from_cp_some in Em. destruct Em as [-> [-> _]]. apply IH in E. lia.
+        -- bind_as H [w1 cp1] Em. bind_as H [[[[[ds w2] cp2] m2] b2] f2] E. inversion H; subst.
+           apply ss_move_to_cp_some in Em. destruct Em as [-> [-> _]]. apply IH in E. lia.
+Qed.
+
+Definition ss_same_rest (s s' : ss_state) : Prop :=
+  st_validators s' = st_validators s /\ st_rpools s' = st_rpools s /\ st_bals s' = st_bals s /\ st_allocs s' = st_allocs s.
+
+Lemma ss_extend_ledger : forall c s now a size s' a' f, ss_extend c s now a size = Some (s', a', f) -> st_ok s ->
+  st_ok s' /\ al_owed a' = al_owed a /\ L_blobbers s' = L_blobbers s /\ ss_same_rest s s' /\ al_id a' = al_id a.
+Proof.
+  unfold ss_extend; intros c s now a size s' a' f H Hok. cbv zeta in H.
+  bind_as H [bas bls] Et. apply ss_extend_terms_owed in Et; [|exact Hok]. destruct Et as [Hok' Hm].
+  destruct (_ =? 0) in H.
+  - inversion H; subst. unfold st_ok, L_blobbers, ss_same_rest. cbn. rewrite Hm. repeat split; auto.
+  - bind_as H od Eo. bind_as H nd En. bind_as H cp Ecp. bind_as H [[[[[bas' w] cp'] mtc] mb] fl] Ea. inversion H; subst.
+    apply ss_adjust_loop_sum in Ea. cbn in Ecp.
+    unfold st_ok, L_blobbers, ss_same_rest. cbn [st_blobbers st_validators st_rpools st_bals st_allocs st_with_blobbers]. rewrite Hm.
+    repeat split; auto. unfold al_owed. cbn. rewrite Ecp. cbn in Ea. lia.
+Qed.
+
+Lemma ss_replace_ledger : forall c s now round a removed nb s' a' f,
+  ss_replace c s now round a removed nb = Some (s', a', f) -> al_c12 a -> st_ok s ->
+  st_ok s' /\ al_owed a' + L_blobbers s' <= al_owed a + L_blobbers s /\ ss_same_rest s s' /\ al_id a' = al_id a /\
+  (forall id, id <> removed -> ss_find_blobber id (st_blobbers s') = ss_find_blobber id (st_blobbers s)).
+Proof.
+  unfold ss_replace; intros c s now round a removed nb s' a' f H Ha Hok.
+  bind_as H d Ed. bind_as H b Eb. pose proof (find_ok _ _ _ Hok Eb) as Hb.
+  destruct (bl_killed b || bl_shut b).
+  - bind_as H cp Ecp. bind_as H [w cp'] Em. bind_as H mb Emb. inversion H; subst.
+    apply ss_move_from_cp_some in Em. destruct Em as [-> [-> _]].
+    unfold ss_same_rest. repeat split; auto. unfold al_owed at 1. cbn. unfold al_owed. rewrite Ecp. lia.
+  - bind_as H [[a1 rate] gone] Er. pose proof (ss_remove_rates_key _ _ _ _ _ _ _ Er) as Hk1.
+    apply ss_remove_rates_money in Er.
+    assert (Ha1 : al_c12 a1) by (eapply al_c12_money_eq; eauto).
+    bind_as H d1 Ed1. bind_as H b0 E0. bind_as H cp Ecp. bind_as H [[[b1 d2] reward] pen] Ef. bind_as H cp1 Ec1. cbv zeta in H.
+    bind_as H mb Emb. bind_as H [w cp2] Em. guard_inv H. bind_as H due Edue. bind_as H [b2 w2] E2. inversion H; subst. clear H.
+    apply ss_reduce_offer_owed in E0. destruct E0 as [Ho0 [Hi0 Hk0]].
+    pose proof (al_c12_ba_range _ _ _ Ha1 Ed1) as [Hd1 _].
+    apply ss_fin_pay_owed in Ef; auto. destruct Ef as [Hok1 [Hi1 [Ho1 Hr0]]].
+    apply ss_minus_coin_some in Ec1. destruct Ec1 as [-> Hle].
+    apply ss_move_from_cp_some in Em. destruct Em as [-> [-> Hle2]].
+    assert (H2 : bl_ok b2 /\ bl_id b2 = bl_id b1 /\ exists share, 0 <= share /\ w2 = al_wpool a1 + ss_wrap (ba_cpiv d2 + pen) - share /\
+                 bl_owed b2 <= bl_owed b1 + share).
+    { destruct due as [cc|].
+      - bind_as E2 total Et. cbv zeta in E2. bind_as E2 b' Eb'. bind_as E2 w' Ew. guard_inv E2. inversion E2; subst.
+        match type of Eb' with ss_distribute _ ?x = _ => set (share := x) in * end.
+        assert (Hs : 0 <= share).
+        { subst share. unfold ss_cancel_share. destruct (f64_float_to_coin _) eqn:Ec; [apply f64_float_to_coin_range in Ec; lia | lia]. }
+        pose proof (ss_distribute_ok _ _ _ Eb' Hok1) as Hokb. apply ss_distribute_owed in Eb'; [|exact Hs]. destruct Eb' as [Hib Hob].
+        apply ss_minus_coin_some in Ew. destruct Ew as [-> _]. split; [exact Hokb|]. split; [exact Hib|]. exists share. repeat split; auto; lia.
+      - inversion E2; subst. split; [exact Hok1|]. split; [reflexivity|]. exists 0. repeat split; lia. }
+    destruct H2 as [Hok2 [Hi2 [share [Hs0 [Hw2 Ho2]]]]].
+    set (bsp := if ss_active (cf_demeter c) round then b2 else b0).
+    assert (Hbsp : bl_ok bsp /\ bl_owed bsp <= bl_owed b + reward + share).
+    { subst bsp. destruct (ss_active (cf_demeter c) round); [split; [exact Hok2 | lia] | split; [auto | lia]]. }
+    destruct Hbsp as [Hokb Hob].
+    match goal with |- context [ss_set_blobber ?x _] => set (bnode := x) end.
+    assert (Hnode : bl_ok bnode /\ bl_owed bnode = bl_owed bsp /\ bl_id bnode = bl_id b) by (subst bnode; repeat split; auto).
+    destruct Hnode as [Hokn [Hon Hin]].
+    assert (Hidb : bl_id b = removed) by (eapply ss_find_blobber_id; eauto).
+    unfold st_ok, L_blobbers, ss_same_rest. cbn [st_blobbers st_validators st_rpools st_bals st_allocs st_with_blobbers st_with_chals].
+    split; [apply set_ok; auto|]. split.
+    + rewrite (sum_set_blobber _ _ b); [|rewrite Hin; eapply ss_find_blobber_self; eauto].
+      assert (Hoa : al_owed a1 = al_owed a) by (apply al_owed_money; exact Er).
+      match goal with |- al_owed ?x + _ <= _ => assert (Hx : al_owed x = w2 + (cp - reward - ss_wrap (ba_cpiv d2 + pen))) by (unfold al_owed; reflexivity) end.
+      rewrite Hx. unfold al_owed in Hoa. rewrite Ecp in Hoa. unfold al_owed in *. lia.
+    + split; [repeat split; auto|]. split.
+      * change (al_id a1 = al_id a). change (al_id a1) with (fst (al_key a1)). rewrite Hk1. reflexivity.
+      * intros id Hid. rewrite ss_find_set_blobber. rewrite Hin, Hidb. destruct (Z.eqb_spec id removed); [contradiction | reflexivity].
+Qed.
+
+Lemma ss_change_blobbers_ledger : forall c s now round a add rem s' a' f,
+  ss_change_blobbers c s now round a add rem = Some (s', a', f) -> al_c12 a -> st_ok s ->
+  st_ok s' /\ al_owed a' + L_blobbers s' <= al_owed a + L_blobbers s /\ ss_same_rest s s' /\ al_id a' = al_id a.
+Proof.
+  unfold ss_change_blobbers; intros c s now round a add rem s' a' f H Ha Hok.
+  guard_inv H. bind_as H ab Eab. cbv zeta in H. guard_inv H. bind_as H [[s1 a1] fired] E1. bind_as H ab2 E2. injection H as Hs' Ha' Hf'. subst s' a' f.
+  pose proof (find_ok _ _ _ Hok Eab) as Hab.
+  apply ss_add_offer_owed in E2. destruct E2 as [Ho2 [Hi2 Hk2]]. cbn in Ho2, Hi2.
+  assert (Hida : bl_id ab = add) by (eapply ss_find_blobber_id; eauto).
+  assert (H1 : st_ok s1 /\ al_owed a1 + L_blobbers s1 <= al_owed a + L_blobbers s /\ ss_same_rest s s1 /\ al_id a1 = al_id a /\
+               ss_find_blobber add (st_blobbers s1) = Some ab).
+  { destruct rem as [r|].
+    - assert (Hne : add <> r).
+      { intros ->. unfold ss_replace in E1. bind_as E1 d Ed. destruct (ss_find_ba r (al_bas a)); discriminate. }
+      destruct (ss_replace_ledger _ _ _ _ _ _ _ _ _ _ E1 Ha Hok) as [? [? [? [? Hfr]]]]. split; [assumption|]. split; [assumption|]. split; [assumption|]. split; [assumption|]. rewrite Hfr; auto.
+    - inversion E1; subst. unfold ss_same_rest. repeat split; auto. lia. }
+  destruct H1 as [Hok1 [Hl1 [Hr1 [Hi1 Hf1]]]].
+  unfold st_ok, L_blobbers, ss_same_rest in *. cbn [st_blobbers st_validators st_rpools st_bals st_allocs st_with_blobbers].
+  split; [apply set_ok; auto|]. split; [|auto].
+  rewrite (sum_set_blobber _ _ ab); [|rewrite Hi2, Hida; exact Hf1]. unfold bl_owed in *. cbn in *. lia.
+Qed.
+
+Lemma ss_update_f_backed : forall c s now round sender alloc value size ext tpe add rem own s' f,
+  st_c12 s -> st_ok s -> 0 <= value -> sender <> cf_sc c ->
+  ss_update_f c s now round sender alloc value size ext tpe add rem own = Some (s', f) -> ss_backed c s s' /\ st_ok s'.
+Proof.
+  unfold ss_update_f; intros c s now round sender alloc value size ext tpe add rem own s' f H12 Hok Hv Hsn H.
+  cbv zeta in H. bind_as H a Ea. guard_inv H. guard_inv H. guard_inv H. guard_inv H. guard_inv H. guard_inv H. guard_inv H.
+  bind_as H [s1 a1] E1. bind_as H fb Efb. bind_as H [[s2 a2] fired] E2. bind_as H cp Ecp. bind_as H need En. guard_inv H.
+  inversion H; subst. clear H.
+  pose proof (st_c12_find _ _ _ H12 Ea) as Ha.
+  assert (H1 : st_blobbers s1 = st_blobbers s /\ st_validators s1 = st_validators s /\ st_rpools s1 = st_rpools s /\
+               st_allocs s1 = st_allocs s /\ al_id a1 = al_id a /\ al_c12 a1 /\
+               al_owed a1 - al_owed a <= ss_wallet c s1 - ss_wallet c s).
+  { destruct (ss_active (cf_demeter c) round && (0 <? value)).
+    - bind_as E1 sx Ex. bind_as E1 w Ew. guard_inv E1. inversion E1; subst.
+      apply ss_lock_from_ledger in Ex; auto. destruct Ex as [Hw [Hal [Hbl [Hvl Hrp]]]].
+      apply ss_add_coin_some in Ew. destruct Ew as [-> Hlt].
+      repeat split; auto.
+      + destruct Ha as [H1 [H2 [H3 H4]]]. unfold al_c12, c12_money. cbn in *. repeat split; auto; lia.
+      + unfold al_owed. cbn. lia.
+    - inversion E1; subst. repeat split; auto. lia. }
+  destruct H1 as [Hb1 [Hv1 [Hr1 [Hal1 [Hi1 [Ha1 Hw1]]]]]].
+  assert (Hok1 : st_ok s1) by (unfold st_ok; rewrite Hb1; exact Hok).
+  assert (H2 : st_ok s2 /\ al_owed a2 + L_blobbers s2 <= al_owed a1 + L_blobbers s1 /\ ss_same_rest s1 s2 /\ al_id a2 = al_id a1).
+  { destruct (negb (sender =? al_owner a1)).
+    - destruct (ss_extend_ledger _ _ _ _ _ _ _ _ E2 Hok1) as [? [? [? [? ?]]]]. repeat split; auto; lia.
+    - bind_as E2 [[sa aa] f1] Ec. bind_as E2 [[sb ab] f2] Ee.
+      assert (Hc : st_ok sa /\ al_owed aa + L_blobbers sa <= al_owed a1 + L_blobbers s1 /\ ss_same_rest s1 sa /\ al_id aa = al_id a1).
+      { destruct add as [x|]; [eapply ss_change_blobbers_ledger; eauto|]. inversion Ec; subst. unfold ss_same_rest. repeat split; auto; lia. }
+      destruct Hc as [Hoka [Hla [Hra Hia]]].
+      assert (He : st_ok sb /\ al_owed ab + L_blobbers sb <= al_owed aa + L_blobbers sa /\ ss_same_rest sa sb /\ al_id ab = al_id aa).
+      { destruct (ext || (0 <? size)).
+        - destruct (ss_extend_ledger _ _ _ _ _ _ _ _ Ee Hoka) as [? [? [? [? ?]]]]. repeat split; auto; lia.
+        - inversion Ee; subst. unfold ss_same_rest. repeat split; auto; lia. }
+      destruct He as [Hokb [Hlb [Hrb Hib]]].
+      assert (Hfin : st_ok s2 /\ L_blobbers s2 = L_blobbers sb /\ ss_same_rest sb s2 /\ al_owed a2 = al_owed ab /\ al_id a2 = al_id ab).
+      { unfold ss_same_rest. crush E2; blob_base; repeat split; auto. }
+      destruct Hfin as [Hokf [Hlf [Hrf [Hof Hif]]]].
+      unfold ss_same_rest in *. destruct Hra as [? [? [? ?]]], Hrb as [? [? [? ?]]], Hrf as [? [? [? ?]]].
+      repeat split; auto; try congruence; lia. }
+  destruct H2 as [Hok2 [Hl2 [[Hv2 [Hr2 [Hb2 Hal2]]] Hi2]]].
+  split; [|unfold st_ok in *; cbn; exact Hok2].
+  unfold ss_backed, ss_liab, L_allocs, L_validators, L_rpools, ss_wallet, ss_bal in *. unfold L_blobbers in *.
+  cbn [st_allocs st_blobbers st_validators st_rpools st_bals st_with_allocs].
+  rewrite Hal2, Hal1, Hv2, Hv1, Hr2, Hr1, Hb2.
+  rewrite (sum_set_alloc _ _ a); [|rewrite Hi2, Hi1; eapply ss_find_alloc_self; eauto].
+  rewrite Hb1 in Hl2. lia.
+Qed.
+
+End Bound.
